@@ -94,19 +94,22 @@ var dstNames = []string{"missing", "existing-shorter", "existing-longer", "exist
 	"other-fs", "other-fs-existing", "other-fs-symlink-back-to-source"}
 
 type scen struct {
-	move bool
-	size int
-	src  int
-	dst  int
-	salt uint64
+	move    bool
+	size    int
+	src     int
+	dst     int
+	salt    uint64
+	pattern int // content shape: 0 pseudo-random, 1 all zero bytes, 2 zero tail, 3 zero head, 4 alternating zero / data blocks, 5 one repeated byte
 }
+
+var patternNames = []string{"random", "all-zero", "zero-tail", "zero-head", "alternating-zero-blocks", "repeated-byte"}
 
 func (s scen) String() string {
 	op := "CopyFile"
 	if s.move {
 		op = "MoveFile"
 	}
-	return fmt.Sprintf("%s size=%d source=%s destination=%s", op, s.size, srcNames[s.src], dstNames[s.dst])
+	return fmt.Sprintf("%s size=%d content=%s source=%s destination=%s", op, s.size, patternNames[s.pattern%len(patternNames)], srcNames[s.src], dstNames[s.dst])
 }
 
 func content(n int, salt uint64) []byte {
@@ -117,6 +120,38 @@ func content(n int, salt uint64) []byte {
 		x ^= x >> 7
 		x ^= x << 17
 		b[i] = byte(x)
+	}
+	return b
+}
+
+// shaped gives the source content a shape that copy optimisations care about: runs of zero bytes (sparse files),
+// block-aligned zero tails and heads, constant bytes.
+func shaped(n int, salt uint64, pattern int) []byte {
+	b := content(n, salt)
+	zero := func(from, to int) {
+		for i := max(from, 0); i < min(to, n); i++ {
+			b[i] = 0
+		}
+	}
+	block := []int{4096, 65536, 32768, 1 << 20}[salt%4]
+	switch pattern % len(patternNames) {
+	case 1:
+		zero(0, n)
+	case 2:
+		zero(n-block, n)
+		if salt%3 == 0 {
+			zero(n/2, n)
+		}
+	case 3:
+		zero(0, block)
+	case 4:
+		for off := 0; off < n; off += 2 * block {
+			zero(off, off+block)
+		}
+	case 5:
+		for i := range b {
+			b[i] = byte(salt)
+		}
 	}
 	return b
 }
@@ -148,7 +183,7 @@ func run(s scen) (msg string, skipped bool) {
 			panic("harness setup: " + err.Error())
 		}
 	}
-	data := content(s.size, s.salt)
+	data := shaped(s.size, s.salt, s.pattern)
 	realSrc := filepath.Join(dir, "source.bin")
 	srcPath := realSrc
 	switch s.src {
@@ -280,12 +315,12 @@ func firstDiff(a, b []byte) int {
 	return len(b)
 }
 
-var sizesQuick = []int{0, 1, 4095, 4096, 4097, 65536, 1<<20 + 3}
+var sizesQuick = []int{0, 1, 4095, 4096, 4097, 65536, 3 * 65536, 1<<20 + 3, 1 << 20}
 
 // TestAllCombinations enumerates operation x source x destination for a few sizes.
 func TestAllCombinations(t *testing.T) {
 	si, sn := rt.Shard()
-	sizes := []int{0, 1, 4097}
+	sizes := []int{0, 1, 4097, 2 * 65536}
 	if rt.Thorough() {
 		sizes = append(sizesQuick, 5<<20)
 	}
@@ -301,7 +336,7 @@ func TestAllCombinations(t *testing.T) {
 					if idx%sn != si {
 						continue
 					}
-					s := scen{move: move, size: size, src: src, dst: dst, salt: uint64(idx)}
+					s := scen{move: move, size: size, src: src, dst: dst, salt: uint64(idx), pattern: idx % len(patternNames)}
 					msg, skipped := run(s)
 					if skipped {
 						nskip++
@@ -336,6 +371,7 @@ func TestGenerated(t *testing.T) {
 			dst:  rapid.IntRange(0, numDst-1).Draw(t, "destination"),
 			salt: rapid.Uint64().Draw(t, "salt"),
 		}
+		s.pattern = rapid.SampledFrom([]int{0, 0, 0, 1, 2, 2, 3, 4, 5}).Draw(t, "contentPattern")
 		if rapid.IntRange(0, 3).Draw(t, "arbitrarySize") == 0 {
 			s.size = rapid.IntRange(0, 200000).Draw(t, "size")
 		} else {
@@ -350,6 +386,7 @@ func TestGenerated(t *testing.T) {
 			t.Fatalf("%s: %s", s, msg)
 		}
 		ev.Label("dst:" + dstNames[s.dst])
+		ev.Label("content:" + patternNames[s.pattern%len(patternNames)])
 		ev.Case(s.nontrivial(), ev.Hash(s.String(), fmt.Sprint(s.salt)), s.String)
 	})
 }
